@@ -14,3 +14,65 @@ package web
 //@   assigns sessionStore
 //@   ensures[C18] keys: len(sessionKey) >= 32 && len(encryptionKey) >= 32
 //@   nopanic[C10]
+
+// ---------------------------------------------------------------- authentication middleware (C05)
+
+//@ define reqId(r) = dyn(ctxval(reqctx(r), identity.CTXKey), ptr(identity.User))
+//@ define reqHasId(r) = typeIs(ctxval(reqctx(r), identity.CTXKey), ptr(identity.User)) && reqId(r) != nil && reqId(r).attributes != nil
+//@ define freshResponse() = !#nextCalled && #status == 0 && #wwwAuth == 0
+
+//@ func (*BasicAuthHandler).authenticate
+//@   requires[C10] wf: h != nil
+//@   assigns #status, #httpErrors, #rpcOK, #rpcUser, #rpcPass, #rpcAuthenticated
+//@   ensures[C05] confirmed: authenticated ==> h.SocketAddress != "" && #rpcOK && #rpcAuthenticated && #rpcUser == username && #rpcPass == password
+//@   ensures[C05] quiet: authenticated ==> #status == old(#status)
+//@   nopanic[C10]
+
+//@ func (*BasicAuthHandler).BasicAuth$1
+//@   requires[C10] wf: h != nil && *h != nil && next != nil && *next != nil && reqHasId(r)
+//@   requires start: freshResponse()
+//@   assigns *
+//@   ensures[C05] gate: #nextCalled ==> #rpcOK && #rpcAuthenticated && #rpcUser == r.BasicAuth() && reqId(#nextReq).userName == #rpcUser && reqId(#nextReq).authenticated
+//@   ensures[C05] challenge: !#nextCalled ==> (#status == 401 || #status == 500) && #wwwAuth == 1
+//@   ensures[C05] noCredentials: !nth(2, r.BasicAuth()) ==> !#nextCalled && #status == 401 && #wwwAuth == 1
+//@   ensures[C05] noChallengeOnSuccess: #nextCalled ==> #status == 0 && #wwwAuth == 0
+//@   nopanic[C10]
+
+//@ func (*NTLMAuthHandler).getAuthPayload
+//@   requires[C10] wf: h != nil && r.Header != nil
+//@   ensures[C05] ntlm: err == nil ==> (authMode == 1 || authMode == 2)
+//@   nopanic[C10]
+
+//@ func (*NTLMAuthHandler).requestAuthenticate
+//@   assigns #status, #httpErrors, #wwwAuth, #lastChallenge
+//@   ensures[C05] challenge: #status == ite(old(#status) == 0, 401, old(#status)) && #wwwAuth == old(#wwwAuth) + 2
+//@   nopanic[C10]
+
+//@ func (*NTLMAuthHandler).authenticate
+//@   requires[C10] wf: h != nil
+//@   assigns #status, #httpErrors, #wwwAuth, #lastChallenge, #rpcOK, #rpcUser, #rpcSession, #rpcNtlmIn, #rpcNtlmOut, #rpcAuthenticated
+//@   ensures[C05] confirmed: authenticated ==> h.SocketAddress != "" && #rpcOK && #rpcAuthenticated && #rpcNtlmOut == "" && username == #rpcUser && #rpcNtlmIn == authorisationEncoded && #rpcSession == r.RemoteAddr
+//@   ensures[C05] quiet: authenticated ==> #status == old(#status) && #wwwAuth == old(#wwwAuth)
+//@   ensures[C05] refused: !authenticated && old(#status) == 0 && h.SocketAddress != "" ==> #status == 401 || #status == 500
+//@   nopanic[C10]
+
+//@ func (*NTLMAuthHandler).NTLMAuth$1
+//@   requires[C10] wf: h != nil && *h != nil && next != nil && *next != nil && reqHasId(r) && r.Header != nil
+//@   requires start: freshResponse()
+//@   assigns *
+//@   ensures[C05] gate: #nextCalled ==> #rpcOK && #rpcAuthenticated && #rpcNtlmOut == "" && reqId(#nextReq).userName == #rpcUser && reqId(#nextReq).authenticated
+//@   ensures[C05] noChallengeOnSuccess: #nextCalled ==> #status == 0 && #wwwAuth == 0
+//@   nopanic[C10]
+
+//@ func (*AuthMux).SetAuthenticate
+//@   requires[C10] wf: a != nil
+//@   requires start: freshResponse()
+//@   assigns #status, #httpErrors, #wwwAuth, #lastChallenge
+//@   loop 0 invariant[C05] count: -1 <= rangeindex && rangeindex < len(a.headers) && #wwwAuth == rangeindex + 1 && #status == 0
+//@   ensures[C05] challenges: #status == 401 && #wwwAuth == len(a.headers)
+//@   nopanic[C10]
+
+//@ func NoAuthz
+//@   requires[C10] r.Header != nil
+//@   ensures[C05] iff: result == (r.Header.Get("Authorization") == "")
+//@   nopanic[C10]
